@@ -35,8 +35,17 @@ REAL_SETS = [["ietf-interfaces", "ietf-ip", "iana-if-type"], ["ietf-netconf-acm"
              ["ietf-netconf-nmda", "ietf-ip", "ietf-netconf-acm"], ["notifications", "ietf-netconf"], ["ietf-yang-types", "ietf-inet-types"]]
 
 
+PRED = {}          # request line -> model reply tokens (for classify() of harness crashes)
+
+
 def classify(component, what, case):
     k = case.get("kind")
+    if case.get("crash"):
+        pred = PRED.get(case.get("line"))
+        err = case.get("stderr", "")
+        if pred and "heap-use-after-free" in err and "collect_foreign" in err and any(cc.stale_compiled(t) for t in pred):
+            return "F380"
+        return None
     if k == "hash-collision" and case.get("features_of_later_module_only") and case.get("model_agrees"):
         return "F23"
     if k == "counter-unchanged" and case.get("pending_batch") and case.get("model_agrees"):
@@ -70,6 +79,9 @@ def run_hist(cx, hs, tag, hashes):
         h.write_files(os.path.join(base, "%s%d" % (tag, i)))
     lines = [h.yl_line("%s%d" % (tag, i)) for i, h in enumerate(hs)]
     rm = cx.run_model(lines)
+    for l in lines:
+        r = rm.get(l.split()[0], ["err", "NoReply"])
+        PRED[l] = r[1:] if r[0] == "ok" else []
     ri = cx.run_impl(HARNESS, lines, component="ctx")
     for h, l in zip(hs, lines):
         i = l.split()[0]
@@ -231,7 +243,7 @@ def run(cx):
     hashes = {}
     ws = cc.witnesses()
     hs = []
-    for name in ("F23", "F133", "F135", "F132", "F137"):
+    for name in ("F23", "F133", "F135", "F132", "F137", "order"):
         h = ws[name][1]
         if name == "F137":
             h = h.without_call(1)       # the state right after the successful call that leaves `maa` implemented and not compiled
@@ -263,6 +275,8 @@ def run(cx):
     run_hist(cx, grid, "g", hashes)
     rng = cx.sub_rng("yl")
     run_hist(cx, [cc.gen_yl_history(rng) for _ in range(cx.n(700, 15000))], "r", hashes)
+    rng = cx.sub_rng("yldev")
+    run_hist(cx, [cc.gen_yl_dev_history(rng) for _ in range(cx.n(250, 6000))], "d", hashes)
     jenkins(cx)
     real_modules(cx)
     cx.sample(hs[0].spec()[:300])
